@@ -28,7 +28,9 @@ def exp_parsable(t):
     """None = not asserted."""
     if not exp_valid(t):
         return False
-    if ' ' in t:
+    if ' ' in t or any(not (0x20 <= ord(c) <= 0x7e) for c in t):
+        # blanks, and characters outside the byte alphabet the statement names (e.g. non-ASCII digits that int() accepts):
+        # queried (must not raise) but not asserted
         return None
     toks = t.split(';')
     if not all(re.fullmatch('[0-9]+', x) for x in toks):
@@ -119,7 +121,7 @@ def strat_text():
             return s
         pos = pos % (len(s) + 1)
         return s[:pos] + ch + s[pos:]
-    odd = st.one_of(st.none(), st.none(), st.sampled_from([' ', ':', '<', '=', '>', '?', 'm', '@', '~', '[', '_', 'A', 'z', ';', ';;', '\x7f', '\x3f', '\x40', '\x7e']))
+    odd = st.one_of(st.none(), st.none(), st.sampled_from([' ', ':', '<', '=', '>', '?', 'm', '@', '~', '[', '_', 'A', 'z', ';', ';;', '\x7f', '\x3f', '\x40', '\x7e', '\u00b2', '\u2460', '\u0663', '3\u00b3']))
     return st.tuples(pieces, st.integers(0, 30), odd).map(mangle).map(lambda t: {'t': t})
 
 
